@@ -564,7 +564,7 @@ def callTop (fuel : Nat) (w : XW) : XCall → XW × List XO
   | .subscribe ch id arg attr acts out =>
     ({ w with bus := subscribe w.bus ch ⟨id, effPrio arg attr, acts, out⟩ }, [none])
   | .unsubscribe ch id => ({ w with bus := unsubscribe w.bus ch id }, [none])
-  | .atexit => atexitRun (publishX fuel) w.atexit w
+  | .atexit => atexitRun (publishX fuel) (min 1 w.atexit) w   -- equal handlers are run once by the harness
   | .wait ts ch plan => match waitW (publishX fuel) ts ch tickCap plan w with | (w', r) => (w', [r])
   | .block plan => match blockW (publishX fuel) tickCap plan w with | (w', r) => (w', [r])
   | .swc => swcW (publishX fuel) tickCap w
